@@ -57,8 +57,10 @@ class Check:
         counts = {}
         for o in self.obligations:
             counts[o["rule"]] = counts.get(o["rule"], 0) + 1
+        has_viol = set(o["rule"] for o in self.obligations if not o["ok"])
         for rid, fl in self.floors.items():
-            if counts.get(rid, 0) < fl:
+            # a rule that already reports a violation is not vacuous: report the violation rather than the shortfall
+            if counts.get(rid, 0) < fl and rid not in has_viol:
                 raise core.AnalysisBroken("rule %s matched %d instances, floor is %d (anchor moved or rule lost its target)"
                                           % (rid, counts.get(rid, 0), fl))
         known = [k for k in load_known() if k["property"] == self.prop]
